@@ -408,3 +408,104 @@ def module_guards(ctx, P, rule="MODULE-GUARD", freeze=False):
         ctx.ob(rule + "-PRESENT", fname, have >= cnt, "python/_tskitmodule.c (%s)" % fname, "%d count-bounded guard(s) (confirmed %d)" % (have, cnt))
     ctx.rule(rule + "-PRESENT", "every module range guard confirmed by reading (tables/module_guards.json) is still present")
     return seen
+
+
+# =============================================================================================
+OPTIONS_TABLE = _os.path.join(_os.path.dirname(_os.path.dirname(_os.path.abspath(__file__))), "tables", "options.json")
+NEG_TOKENS = ("_NO_", "_NOT_", "NONCENTRED", "KEEP_UNREFERENCED", "NO_CHANGE")
+
+
+def extract_options(P):
+    from sa.schema import Facts
+    tu = P.tus["module"]
+    out = {}
+    for fn in tu.funcs.values():
+        pcs = modinfo.parse_calls(tu, fn)
+        if not pcs:
+            continue
+        F = Facts(P, fn)
+        var2kw = {}
+        for pc in pcs:
+            slots, _ = modinfo.dest_slots(pc)
+            for i, (u, ds) in enumerate(slots):
+                v = modinfo.dest_var(ds[-1]) if ds else None
+                if v:
+                    var2kw[v] = (pc.kwlist[i] if pc.kwlist and i < len(pc.kwlist) else "arg%d" % i, u)
+        defaults = {}
+        for x in walk(fn.body):
+            if x.k == "VarDecl" and x.name in var2kw and x.kids and x.kids[-1] is not None:
+                defaults[x.name] = estr(x.kids[-1])
+        for l, o, r, n in F.assigns:
+            if o == "|=" and l.endswith("options"):
+                ifs = [i for i, br in F.enclosing_ifs(n)]
+                if not ifs:
+                    continue
+                c = estr(ifs[0].kids[0])
+                neg = c.startswith("!")
+                var = c.lstrip("!").strip("()")
+                if var in var2kw:
+                    out.setdefault(fn.name, []).append({"kw": var2kw[var][0], "flag": r, "negated": neg, "default": defaults.get(var),
+                                                        "_node": n})
+                else:
+                    out.setdefault(fn.name, []).append({"kw": None, "cond": c, "flag": r, "negated": neg, "default": None, "_node": n})
+    return out
+
+
+def options_plumbing(ctx, P, funcs=None, rule="OPTION-PLUMBING", freeze=False):
+    ctx.rule(rule, "each boolean keyword of a module method reaches exactly its library flag with the frozen polarity (table of public "
+                   "API facts tables/options.json): keyword -> destination variable -> `if ([!]var) options |= FLAG`; negation parity "
+                   "agrees with the flag's sense (NO_/NOT_/KEEP_UNREFERENCED flags are set when the keyword is false) and with the C default")
+    got = extract_options(P)
+    tu = P.tus["module"]
+    if freeze:
+        data = {f: [{k: v for k, v in e.items() if not k.startswith("_")} for e in es] for f, es in got.items()}
+        with open(OPTIONS_TABLE, "w") as fh:
+            _json.dump({"comment": "keyword -> flag plumbing of module methods, confirmed by reading against the flag doc comments",
+                        "methods": data}, fh, indent=1, sort_keys=True)
+        return got
+    with open(OPTIONS_TABLE) as fh:
+        frozen = _json.load(fh)["methods"]
+    for fname, ents in sorted(frozen.items()):
+        if funcs is not None and fname not in funcs:
+            continue
+        cur = got.get(fname, [])
+        fn = tu.funcs.get(fname)
+        if fn is None:
+            ctx.ob(rule, fname, False, "python/_tskitmodule.c", "method %s no longer exists" % fname)
+            continue
+        for e in ents:
+            if e.get("kw") is None:
+                continue
+            m = [c for c in cur if c.get("kw") == e["kw"]]
+            key = "%s|%s" % (fname, e["kw"])
+            if not m:
+                ctx.ob(rule, key, False, tu.loc(fn.node), "keyword `%s` no longer sets any flag (expected %s%s)" % (e["kw"], "!" if e["negated"] else "", e["flag"]))
+                continue
+            c = m[0]
+            ok = c["flag"] == e["flag"] and c["negated"] == e["negated"] and len(m) == 1
+            why = "`%s` -> %s%s" % (e["kw"], "!" if c["negated"] else "", c["flag"])
+            if not ok:
+                why += " (expected %s%s)" % ("!" if e["negated"] else "", e["flag"])
+            # sense parity, independent of the table
+            sense_neg = any(t in c["flag"] for t in NEG_TOKENS)
+            if ok and sense_neg != c["negated"] and (fname, e["kw"]) not in SENSE_OK:
+                ok = False
+                why += ": polarity contradicts the flag's sense"
+            if ok and c.get("default") is not None and e.get("default") is not None and c["default"] != e["default"]:
+                ok = False
+                why += ": C default changed from %s to %s" % (e["default"], c["default"])
+            ctx.ob(rule, key, ok, tu.loc(c["_node"]), why)
+    # new option-setting code not in the table is analysed for sense parity only
+    for fname, es in got.items():
+        if funcs is not None and fname not in funcs:
+            continue
+        known = {e.get("kw") for e in frozen.get(fname, [])}
+        for c in es:
+            if c.get("kw") and c["kw"] not in known:
+                sense_neg = any(t in c["flag"] for t in NEG_TOKENS)
+                ctx.ob(rule, "%s|%s|new" % (fname, c["kw"]), sense_neg == c["negated"], tu.loc(c["_node"]),
+                       "new keyword `%s` -> %s%s" % (c["kw"], "!" if c["negated"] else "", c["flag"]))
+    return got
+
+
+SENSE_OK = set()
